@@ -15,7 +15,7 @@ CONSTANT Deep       \* thorough tier: more base documents
 
 QuickBases ==
   [b1 |-> <<"info", "srv", "tag1", "tag2", "t1", "t3", "e1", "urlAI", "tagged", "rpc">>,
-   b2 |-> <<"t1", "t2", "urlA", "getB", "mac", "useM">>,
+   b2 |-> <<"t1", "t2", "urlA", "getB", "mac", "useM", "bodyT">>,
    b3 |-> <<"tag1", "tag2", "urlT", "tagrep", "t1", "e1">>]
 DeepBases ==
   [b4 |-> <<"infoV", "srv2", "t1", "reqT", "tAny", "e1", "t4", "pathM">>,
@@ -40,10 +40,14 @@ BlockStart(bs, x) == 2 + Len(Concat(SubSeq(bs, 1, x - 1), 1))     \* token index
 DupCls(k) == CASE k \in {"TYPE", "ENUM", "SERVER", "TAG", "MACRO"} -> "dupname"
                [] k = "INFO" -> "infoonce" [] k = "URL" -> "duppath" [] OTHER -> "dupinteraction"
 
+\* a Body that belongs to a Request takes no annotation either (a Body of a response does: it annotates the response)
+BodyOfRequest(doc, x) == doc[x].k = "Body" /\ LET T == RunTree(doc) IN
+                           \E j \in 1..Len(T.nodes) : T.nodes[j].tok = x /\ T.nodes[j].parent # 0 /\ T.nodes[T.nodes[j].parent].k = "Request"
+
 Faults(b) ==
   LET doc == Doc0(b)  bs == Bases[b]  n == Len(doc) IN
   {F("noparam", [doc EXCEPT ![i].p = <<>>], "noparam", i, "kw", 0) : i \in {x \in 1..n : doc[x].t = "D" /\ doc[x].k \in NP /\ doc[x].p # <<>>}}
-  \cup {F("annotation", [doc EXCEPT ![i].a = "x"], "annotation", i, "kw", 0) : i \in {x \in 1..n : doc[x].t = "D" /\ doc[x].k \in AN /\ doc[x].a = ""}}
+  \cup {F("annotation", [doc EXCEPT ![i].a = "x"], "annotation", i, "kw", 0) : i \in {x \in 1..n : doc[x].t = "D" /\ doc[x].a = "" /\ (doc[x].k \in AN \/ BodyOfRequest(doc, x))}}
   \cup {F("second", InsertAt(doc, i, <<doc[i]>>), IF doc[i].k = "BaseUrl" THEN "baseurlonce" ELSE IF doc[i].k = "OperationId" THEN "dupopid" ELSE "notunique", i + 1, "kw", 0)
           : i \in {x \in 1..n : doc[x].t = "D" /\ doc[x].k \in DL}}
   \cup {F("dupblock", doc \o BlockTab[bs[x]], DupCls(BlockTab[bs[x]][1].k), n + 1, "kw", Len(BlockTab[bs[x]]))
